@@ -100,6 +100,8 @@ def work(ctx):
         ctx.case("ser_citems (collapse_items %s %s)" % (L, g_eitems(items)), t_citems(c), "collapse_items %r" % (list(table),), group)
         e = call(LM.expand_items, c, lt)
         ctx.case("ser_res ser_eitems (OK (expand_items %s %s))" % (L, g_citems(c)), tres(e, t_eitems), "expand_items", group)
+        if not lt and any(i.bytecode_offset % 2 for i in c) and ctx.counters.get("items_to_mapping:OutOfFuel", 0) >= 120:
+            return None     # enough non-terminating (odd offset) cases: each costs a timeout
         m = timed(LM.items_to_mapping, c, n, lt)
         ctx.case("ser_res ser_linemap (items_to_mapping %s %s %s)" % (g_citems(c), gz(n), L), tres(m, t_linemap),
                  "items_to_mapping %r n=%d lt=%s" % (list(table), n, lt), group)
@@ -224,7 +226,8 @@ def work(ctx):
             n = total + (0 if lt else 2 * (idx % 3))
             odd = any(b % 2 for b, _ in t)
             ctx.count("raw:" + ("odd-offsets" if odd else "even-offsets"))
-            stage_cases(table, n, lt, "raw-odd" if odd else "raw")
+            if len(t) < 3 or idx % 7 == 0:
+                stage_cases(table, n, lt, "raw-odd" if odd else "raw")
             if not odd and lt == native_lt and n >= 2:
                 # <=3.9: every raw table with even offsets; 3.10: raw tables that are assembler images
                 if not lt or LT.is_asm310_image(table):
